@@ -15,6 +15,14 @@ def _log(kind: str, text: str) -> None:
             handle.write(f'{kind}\t{text}\n')
 
 
+def _executions(name: str) -> int:
+    path = os.environ.get('C02_LOG')
+    if not path or not os.path.exists(path):
+        return 0
+    with open(path, encoding='utf-8') as handle:
+        return sum(1 for line in handle if line.rstrip('\n') == f'exec\t{name}')
+
+
 def make_fn(k: int):
     """Functions that differ only in a closure value (same __name__/__qualname__ => same repr)."""
 
@@ -39,6 +47,11 @@ class Op(flow.Actor):
             import forml  # pylint: disable=import-outside-toplevel
 
             raise forml.InvalidError(f'poisoned input at {self.name}')
+        if os.environ.get('C02_FAULT') == self.name and _executions(self.name) == 1:
+            # injected transient fault: this instruction fails the first time it is executed (and only then)
+            import forml  # pylint: disable=import-outside-toplevel
+
+            raise forml.InvalidError(f'injected transient fault at {self.name}')
         if self.function is not None:
             args = tuple(self.function(a) for a in args)
         if self.szout == 1:
